@@ -47,6 +47,11 @@ func constSet(v ssa.Value, idx int, seen map[ssa.Value]bool, out map[int64]bool)
 		if call, ok := x.Tuple.(*ssa.Call); ok {
 			return constSetCall(call, x.Index, seen, out)
 		}
+		if lk, ok := x.Tuple.(*ssa.Lookup); ok && x.Index == 0 {
+			return constSetTable(lk, idx, seen, out)
+		}
+	case *ssa.Lookup:
+		return constSetTable(x, idx, seen, out)
 	case *ssa.Call:
 		return constSetCall(x, 0, seen, out)
 	case *ssa.UnOp:
@@ -67,6 +72,71 @@ func constSet(v ssa.Value, idx int, seen map[ssa.Value]bool, out map[int64]bool)
 		}
 	}
 	return false
+}
+
+// constSetTable: a lookup in a package-level table (`var t = map[K]V{...}`) that is filled by its initialiser
+// only: the possible results are the literal's values (plus the zero value for a missing key).
+func constSetTable(lk *ssa.Lookup, idx int, seen map[ssa.Value]bool, out map[int64]bool) bool {
+	ld, ok := lk.X.(*ssa.UnOp)
+	if !ok || ld.Op != token.MUL {
+		return false
+	}
+	g, ok := ld.X.(*ssa.Global)
+	if !ok || g.Pkg == nil {
+		return false
+	}
+	if _, isMap := lk.X.Type().Underlying().(*types.Map); !isMap {
+		return false
+	}
+	initFn := g.Pkg.Func("init")
+	if initFn == nil {
+		return false
+	}
+	var table ssa.Value
+	nStores := 0
+	for _, m := range g.Pkg.Members {
+		f, ok := m.(*ssa.Function)
+		if !ok {
+			continue
+		}
+		fns := append([]*ssa.Function{f}, f.AnonFuncs...)
+		for _, fn := range fns {
+			for _, b := range fn.Blocks {
+				for _, ins := range b.Instrs {
+					switch x := ins.(type) {
+					case *ssa.Store:
+						if x.Addr == ssa.Value(g) {
+							nStores++
+							if fn == initFn {
+								table = x.Val
+							}
+						}
+					case *ssa.MapUpdate:
+						// a write through the global outside the initialiser
+						if l2, ok := x.Map.(*ssa.UnOp); ok && l2.Op == token.MUL && l2.X == ssa.Value(g) {
+							return false
+						}
+					}
+				}
+			}
+		}
+	}
+	// methods of the package's types may also write the table
+	if table == nil || nStores != 1 {
+		return false
+	}
+	n := 0
+	for _, b := range initFn.Blocks {
+		for _, ins := range b.Instrs {
+			if mu, ok := ins.(*ssa.MapUpdate); ok && mu.Map == table {
+				n++
+				if !constSet(mu.Value, idx, seen, out) {
+					return false
+				}
+			}
+		}
+	}
+	return n > 0
 }
 
 func constSetCall(call *ssa.Call, idx int, seen map[ssa.Value]bool, out map[int64]bool) bool {
